@@ -6,15 +6,28 @@
 // it traps a second thread entering while one is inside (CORRUPT) and can widen the window between two bytes.
 // What this driver shows is a SAMPLE of the real interleavings, never all of them.
 //
-// case:   <out|err> <c0,c1,...> <dist> <mode> <seed> [ord] [same] [tsan]
+// case:   <out|err> <c0,c1,...> <dist> <mode> <seed> [ord] [same] [p1..p5] [wave] [fresh] [tied] [tsan]
 //   c_t   records logged by thread t (2..32 threads)          dist  z|s|m|l|x   payload length distribution
-//         (upper case S|M|L|X: payloads with interior/trailing/double newlines and "\r\n")
+//         h = 20000..70000 bytes; upper case S|M|L|X|H: payloads with interior/trailing/double newlines, "\r\n",
+//         NUL, bytes >= 0x80 and format metacharacters
 //   mode  n plain | y yield between bytes | d dwell (the thread inside waits a little for a second one to come in)
 //   ord   append the observed order to an OK observation
 //   same  ALL threads use ONE logger type and ONE severity, every record as a one-expression statement with
 //         nine streamed items (each << move-constructs the statement's stream object): whatever a logger type
 //         shares between statements of the same severity is hit by all threads at once.  Without `same`
 //         even/odd threads use two logger types and the statements rotate over three forms and severities.
+//   p1    the _mt sink sits inside sink::sequence<> (alone / after sink::Null)      p2  sequence<X_mt, X_mt>: every
+//         record must appear exactly twice, each copy contiguous      p3  sequence<stdout_mt, StdErrThreaded>: both
+//         streams are trapped and checked      p4  record with tag/severity/thread-id attributes, and_filter of a run-time
+//         severity_filter and a not_filter, tags given as const char* / std::string, filtered-out statements in between
+//         p5  odd threads own a sink object each and call its public sink() directly (no logger)
+//   wave  threads with id >= n/2 are created by thread (id - n/2) half-way through its records and joined by it
+//   fresh the case runs in a forked child in which nothing has logged yet: the first calls (logger::instance(),
+//         the function-local static mutex) race
+//   Without `same` the statements rotate over eight forms (one expression / named stream / single item / callable
+//   item on an rvalue and on an lvalue stream / logger::log() called directly / smart_stream::sstr() / from a
+//   destructor during stack unwinding and from a catch handler) and five severities, with empty-message statements
+//   in between (they must not disturb anything).
 //   In every case the CONTENT of each record is checked byte for byte (thread, seq, length, checksum, payload).
 // observation (first defect found, fixed precedence):
 //   OK c0,c1,...   [ORDER t:seq,...]  |  CORRUPT | RACE | INTERLEAVED | DUPLICATED | LOST | REORDERED
@@ -24,7 +37,15 @@
 
 #include <nitro/log/attribute/message.hpp>
 #include <nitro/log/attribute/timestamp.hpp>
+#include <nitro/log/attribute/severity.hpp>
+#include <nitro/log/attribute/std_thread_id.hpp>
+#include <nitro/log/attribute/tag.hpp>
+#include <nitro/log/filter/and_filter.hpp>
+#include <nitro/log/filter/not_filter.hpp>
 #include <nitro/log/filter/null_filter.hpp>
+#include <nitro/log/filter/severity_filter.hpp>
+#include <nitro/log/sink/null.hpp>
+#include <nitro/log/sink/sequence.hpp>
 #include <nitro/log/sink/stderr_mt.hpp>
 #include <nitro/log/sink/stdout_mt.hpp>
 
@@ -32,6 +53,8 @@
 #include <chrono>
 #include <memory>
 #include <thread>
+
+#include <sys/wait.h>
 
 namespace
 {
@@ -134,7 +157,10 @@ private:
 };
 
 // ------------------------------------------------------------------ loggers
-using rec_t = nitro::log::record<nitro::log::message_attribute, nitro::log::timestamp_attribute>;
+namespace nl = nitro::log;
+using rec_t = nl::record<nl::message_attribute, nl::timestamp_attribute>;
+using rich_t = nl::record<nl::tag_attribute, nl::message_attribute, nl::severity_attribute, nl::std_thread_id_attribute,
+                          nl::timestamp_clock_attribute<std::chrono::steady_clock>>;
 
 template <typename R>
 struct fmt_a
@@ -153,12 +179,28 @@ struct fmt_b
     }
 };
 template <typename R>
-using filt = nitro::log::filter::null_filter<R>;
+using filt = nl::filter::null_filter<R>;
+// run-time severity threshold (set to debug in main: trace statements are dropped) AND NOT(threshold no. 1, left at
+// fatal+... see main): a filter expression in the path of every record of profile p4
+template <typename R>
+using rich_filt = nl::filter::and_filter<nl::filter::severity_filter<R>, nl::filter::not_filter<nl::filter::severity_filter<R, 1>>>;
 
-using out_a = nitro::log::logger<rec_t, fmt_a, nitro::log::sink::stdout_mt, filt>;
-using out_b = nitro::log::logger<rec_t, fmt_b, nitro::log::sink::stdout_mt, filt>;
-using err_a = nitro::log::logger<rec_t, fmt_a, nitro::log::sink::StdErrThreaded, filt>;
-using err_b = nitro::log::logger<rec_t, fmt_b, nitro::log::sink::StdErrThreaded, filt>;
+template <typename Sink>
+struct pair_of
+{
+    using a = nl::logger<rec_t, fmt_a, Sink, filt>;
+    using b = nl::logger<rec_t, fmt_b, Sink, filt>;
+};
+using SO = nl::sink::stdout_mt;
+using SE = nl::sink::StdErrThreaded;
+using out_a = pair_of<SO>::a;
+using out_b = pair_of<SO>::b;
+using err_a = pair_of<SE>::a;
+using err_b = pair_of<SE>::b;
+using out_rich_a = nl::logger<rich_t, fmt_a, SO, rich_filt>;
+using out_rich_b = nl::logger<rich_t, fmt_b, nl::sink::sequence<SO>, rich_filt>;
+using err_rich_a = nl::logger<rich_t, fmt_a, SE, rich_filt>;
+using err_rich_b = nl::logger<rich_t, fmt_b, nl::sink::sequence<SE>, rich_filt>;
 
 // ------------------------------------------------------------------ records
 struct lcg
@@ -180,6 +222,7 @@ std::size_t payload_len(char dist, lcg& g)
     case 's': return r % 17;
     case 'm': return r % 257;
     case 'l': return 1024 + r % 3073;
+    case 'h': return 20000 + r % 50001;
     default: return (r & 1) ? 4096 : ((r & 2) ? 0 : 1);
     }
 }
@@ -187,20 +230,21 @@ std::size_t payload_len(char dist, lcg& g)
 std::string payload(unsigned seed, unsigned t, unsigned seq, char dist)
 {
     // an upper-case dist letter: same lengths, but the payload contains line terminators ('\n', '\r', "\r\n",
-    // "\n\n", a trailing '\n'); records are framed by the length in the header, never by '\n'
-    bool nl = dist >= 'A' && dist <= 'Z';
-    if (nl) dist = static_cast<char>(dist - 'A' + 'a');
+    // "\n\n", a trailing '\n'), NUL, bytes >= 0x80 and metacharacters; records are framed by the length in the
+    // header, never by '\n'
+    bool special = dist >= 'A' && dist <= 'Z';
+    if (special) dist = static_cast<char>(dist - 'A' + 'a');
     lcg g{ (seed * 2654435761ULL + t * 40503ULL + seq * 9973ULL + 1) & 0x7fffffffULL };
     std::size_t n = payload_len(dist, g);
     std::string p(n, 'a');
     for (std::size_t i = 0; i < n; i++) p[i] = static_cast<char>('a' + g.next() % 26);
-    if (nl && n > 0)
+    if (special && n > 0)
     {
+        static const char extra[] = { '\n', '\n', '\r', '\0', '\x80', '\xff', '%', '{', '}', '$', '<', '>' };
         for (std::size_t i = 0; i < n; i++)
         {
-            unsigned r = g.next() % 12;
-            if (r == 0) p[i] = '\n';
-            if (r == 1) p[i] = '\r';
+            unsigned r = g.next() % 72;
+            if (r < sizeof(extra)) p[i] = extra[r];
         }
         switch (g.next() % 5)
         {
@@ -227,21 +271,82 @@ std::string header(unsigned t, unsigned seq, const std::string& p)
            std::to_string(checksum(p)) + ":";
 }
 
-template <typename L>
-void log_one(unsigned t, unsigned seq, const std::string& p)
+template <typename R>
+auto set_sev(R& r, nl::severity_level v, int) -> decltype(r.severity(), void())
 {
-    // the three ways a statement can be written; the message is assembled in the statement's own buffer
-    switch (seq % 3)
+    r.severity() = v;
+}
+template <typename R>
+void set_sev(R&, nl::severity_level, long)
+{
+}
+
+// logs its record from the destructor (used while the stack is being unwound)
+template <typename L>
+struct log_on_exit
+{
+    std::string text;
+    ~log_on_exit()
     {
-    case 0: L::info() << header(t, seq, p) << p << ">\n"; break;
+        L::error() << text;
+    }
+};
+
+template <typename L>
+void log_one(unsigned t, unsigned seq, const std::string& p, bool rich)
+{
+    using sev = nl::severity_level;
+    const std::string h = header(t, seq, p);
+    // statements that must leave no trace in the output: an empty message (the sink gets "" and writes nothing), a
+    // statement without any item, and (p4 only) statements below the run-time threshold
+    if (seq % 5 == 1) L::info() << "";
+    if (seq % 7 == 2) L::debug();
+    if (rich && seq % 3 == 0) L::trace("dropped") << "this statement is filtered out at run time" << p;
+    switch (seq % 8)
+    {
+    case 0: L::info() << h << p << ">\n"; break; // one expression, rvalue stream all the way
     case 1:
     {
-        auto s = L::warn();
-        s << header(t, seq, p);
-        s << p << ">" << "\n";
+        auto s = L::warn(rich ? "a-tag" : nullptr); // named stream: the lvalue overloads; tag as const char*
+        s << h;
+        s << p << '>' << "\n";
         break;
     }
-    default: L::error() << (header(t, seq, p) + p + ">\n"); break;
+    case 2: L::error(rich ? nitro::lang::string_ref(std::string("tag-from-std-string")) : nullptr) << (h + p + ">\n"); break;
+    case 3: L::fatal() << h << [&p]() { return p; } << ">\n"; break; // callable item on an rvalue stream
+    case 4:
+    {
+        auto s = L::debug();
+        auto tail = [&p]() { return p + ">\n"; };
+        s << h << tail; // callable item on an lvalue stream
+        break;
+    }
+    case 5:
+    {
+        // the public static entry points directly: will_log + log with a record filled in by hand
+        typename std::remove_reference<decltype(L::info().record())>::type r;
+        r.message() = h + p + ">\n";
+        set_sev(r, sev::info, 0);
+        if (L::will_log(r)) L::log(sev::info, r);
+        break;
+    }
+    case 6:
+    {
+        auto s = L::warn();
+        if (s) s.sstr() << h << p << '>' << '\n'; // the stream's own buffer
+        break;
+    }
+    default:
+        try
+        {
+            log_on_exit<L> g{ h + p + ">\n" };
+            if (seq % 16 == 7) throw std::runtime_error("unwind"); // the record is logged during stack unwinding ...
+        }
+        catch (const std::exception&)
+        {
+            L::info() << ""; // ... and something is logged from inside the handler
+        }
+        break;
     }
 }
 
@@ -252,27 +357,46 @@ void log_same(unsigned t, unsigned seq, const std::string& p)
     L::info() << "<" << t << "," << seq << "," << p.size() << "," << checksum(p) << ":" << p << ">\n";
 }
 
-template <typename LA, typename LB>
-void worker(unsigned t, unsigned count, unsigned seed, char dist, bool same, std::atomic<int>* ready, std::atomic<bool>* go)
+struct plan
 {
+    std::vector<unsigned> counts;
+    unsigned seed;
+    char dist;
+    bool same, wave, rich, direct;
+    std::atomic<int> ready{ 0 };
+    std::atomic<bool> go{ false };
+};
+
+template <typename LA, typename LB, typename DirectSink>
+void worker(plan* pl, unsigned t, bool wait_for_go)
+{
+    unsigned count = pl->counts[t], n = pl->counts.size();
     std::vector<std::string> ps;
     ps.reserve(count);
-    for (unsigned s = 0; s < count; s++) ps.push_back(payload(seed, t, s, dist));
-    ready->fetch_add(1);
-    while (!go->load()) std::this_thread::yield();
-    if (same)
+    for (unsigned s = 0; s < count; s++) ps.push_back(payload(pl->seed, t, s, pl->dist));
+    if (wait_for_go)
     {
-        for (unsigned s = 0; s < count; s++) log_same<LA>(t, s, ps[s]);
-        return;
+        pl->ready.fetch_add(1);
+        while (!pl->go.load()) std::this_thread::yield();
     }
+    std::thread child;
+    unsigned child_id = t + n / 2;
+    bool spawns = pl->wave && t < n / 2 && child_id < n;
+    DirectSink own; // p5: a sink object of this thread's own, used through its public member only
     for (unsigned s = 0; s < count; s++)
     {
-        // even threads use logger type A, odd threads type B: two sink objects of the same class
-        if (t % 2 == 0)
-            log_one<LA>(t, s, ps[s]);
+        if (spawns && s == count / 2) child = std::thread(worker<LA, LB, DirectSink>, pl, child_id, false);
+        if (pl->same)
+            log_same<LA>(t, s, ps[s]);
+        else if (pl->direct && t % 2 == 1)
+            own.sink(static_cast<nl::severity_level>(s % 6), header(t, s, ps[s]) + ps[s] + ">\n");
+        else if (t % 2 == 0) // even threads use logger type A, odd threads type B: two sink objects of the same class
+            log_one<LA>(t, s, ps[s], pl->rich);
         else
-            log_one<LB>(t, s, ps[s]);
+            log_one<LB>(t, s, ps[s], pl->rich);
     }
+    if (spawns && !child.joinable()) child = std::thread(worker<LA, LB, DirectSink>, pl, child_id, false);
+    if (child.joinable()) child.join();
 }
 
 bool read_num(const std::string& b, std::size_t& i, char term, unsigned long& v)
@@ -285,98 +409,146 @@ bool read_num(const std::string& b, std::size_t& i, char term, unsigned long& v)
     return true;
 }
 
-std::string run_case(const std::vector<std::string>& w0)
+// the bytes one stream received: a concatenation of whole expected records, each (t, seq) exactly `mult` times
+// (mult = how many members of the sink write to this stream), per thread in program order.  No resynchronisation.
+std::string judge(const std::string& b, const plan& pl, unsigned mult, std::vector<std::pair<unsigned, unsigned>>& order)
 {
-    // a trailing word `tsan` only routes the case to the ThreadSanitizer build (props/C09.py)
-    std::vector<std::string> w = w0;
-    bool want_order = false, same = false;
-    while (w.size() > 5 && (w.back() == "tsan" || w.back() == "ord" || w.back() == "same"))
-    {
-        if (w.back() == "ord") want_order = true;
-        if (w.back() == "same") same = true;
-        w.pop_back();
-    }
-    if (w.size() != 5 || (w[0] != "out" && w[0] != "err") || w[2].size() != 1 || w[3].size() != 1)
-        return "BADCASE";
-    bool to_out = w[0] == "out";
-    std::vector<unsigned> counts;
-    for (auto& c : vh::split_on(w[1], ',')) counts.push_back(static_cast<unsigned>(std::stoul(c)));
-    unsigned n = counts.size();
-    if (n < 1 || n > 64) return "BADCASE";
-    char dist = w[2][0], mode = w[3][0];
-    unsigned seed = static_cast<unsigned>(std::stoul(w[4]));
-
-    // expected bytes in total
-    std::size_t total = 0, nrec = 0;
-    for (unsigned t = 0; t < n; t++)
-        for (unsigned s = 0; s < counts[t]; s++)
-        {
-            std::string p = payload(seed, t, s, dist);
-            total += header(t, s, p).size() + p.size() + 2;
-            nrec++;
-        }
-
-    trap_buf buf(2 * total + 4096, mode);
-    std::ostream& os = to_out ? std::cout : std::cerr;
-    std::streambuf* old = os.rdbuf(&buf);
-    int tsan_before = g_tsan_reports.load();
-    {
-        std::atomic<int> ready{ 0 };
-        std::atomic<bool> go{ false };
-        std::vector<std::thread> th;
-        for (unsigned t = 0; t < n; t++)
-        {
-            if (to_out)
-                th.emplace_back(worker<out_a, out_b>, t, counts[t], seed, dist, same, &ready, &go);
-            else
-                th.emplace_back(worker<err_a, err_b>, t, counts[t], seed, dist, same, &ready, &go);
-        }
-        while (ready.load() < static_cast<int>(n)) std::this_thread::yield();
-        go.store(true);
-        for (auto& x : th) x.join();
-    }
-    os.rdbuf(old);
-    os.clear();
-
-    if (buf.corrupt()) return "CORRUPT";
-    if (g_tsan_reports.load() != tsan_before) return "RACE";
-
-    // parse the output back: a sequence of whole records
-    std::string b = buf.bytes();
+    unsigned n = pl.counts.size();
     std::vector<std::vector<unsigned>> seen(n);
-    std::vector<std::pair<unsigned, unsigned>> order;
-    std::size_t i = 0;
+    std::size_t i = 0, nrec = 0;
+    for (unsigned c : pl.counts) nrec += c;
     while (i < b.size())
     {
         unsigned long t, s, len, ck;
         if (b[i++] != '<') return "INTERLEAVED";
         if (!read_num(b, i, ',', t) || !read_num(b, i, ',', s) || !read_num(b, i, ',', len) || !read_num(b, i, ':', ck))
             return "INTERLEAVED";
-        if (t >= n || s >= counts[t] || i + len + 2 > b.size()) return "INTERLEAVED";
+        if (t >= n || s >= pl.counts[t] || i + len + 2 > b.size()) return "INTERLEAVED";
         std::string p = b.substr(i, len);
         i += len;
         if (b[i] != '>' || b[i + 1] != '\n') return "INTERLEAVED";
         i += 2;
-        if (p != payload(seed, t, s, dist) || ck != checksum(p)) return "INTERLEAVED";
+        if (p != payload(pl.seed, t, s, pl.dist) || ck != checksum(p)) return "INTERLEAVED";
         seen[t].push_back(s);
         order.emplace_back(t, s);
     }
-    // exactly once, then program order
     bool lost = false, reordered = false;
     for (unsigned t = 0; t < n; t++)
     {
-        std::vector<unsigned> cnt(counts[t], 0);
+        std::vector<unsigned> cnt(pl.counts[t], 0);
         for (unsigned s : seen[t]) cnt[s]++;
         for (unsigned c : cnt)
         {
-            if (c > 1) return "DUPLICATED";
-            if (c == 0) lost = true;
+            if (c > mult) return "DUPLICATED";
+            if (c < mult) lost = true;
         }
         for (std::size_t k = 1; k < seen[t].size(); k++)
             if (seen[t][k - 1] > seen[t][k]) reordered = true;
     }
-    if (lost || order.size() != nrec) return "LOST";
+    if (lost || order.size() != nrec * mult) return "LOST";
     if (reordered) return "REORDERED";
+    return "OK";
+}
+
+using worker_fn = void (*)(plan*, unsigned, bool);
+
+worker_fn pick(bool to_out, int profile)
+{
+    using namespace nl::sink;
+    switch (profile)
+    {
+    case 1:
+        return to_out ? worker<nl::logger<rec_t, fmt_a, sequence<SO>, filt>, nl::logger<rec_t, fmt_b, sequence<Null, SO>, filt>, Null>
+                      : worker<nl::logger<rec_t, fmt_a, sequence<SE>, filt>, nl::logger<rec_t, fmt_b, sequence<Null, SE>, filt>, Null>;
+    case 2:
+        return to_out ? worker<pair_of<sequence<SO, SO>>::a, pair_of<sequence<SO, SO>>::b, Null>
+                      : worker<pair_of<sequence<SE, SE>>::a, pair_of<sequence<SE, SE>>::b, Null>;
+    case 3: return worker<pair_of<sequence<SO, SE>>::a, pair_of<sequence<SE, SO>>::b, Null>;
+    case 4: return to_out ? worker<out_rich_a, out_rich_b, Null> : worker<err_rich_a, err_rich_b, Null>;
+    case 5: return to_out ? worker<out_a, out_b, SO> : worker<err_a, err_b, SE>;
+    default: return to_out ? worker<out_a, out_b, Null> : worker<err_a, err_b, Null>;
+    }
+}
+
+std::string run_threads(const std::vector<std::string>& w, bool want_order, bool same, bool wave, int profile, bool tied)
+{
+    bool to_out = w[0] == "out";
+    plan pl;
+    for (auto& c : vh::split_on(w[1], ',')) pl.counts.push_back(static_cast<unsigned>(std::stoul(c)));
+    unsigned n = pl.counts.size();
+    if (n < 1 || n > 64) return "BADCASE";
+    pl.dist = w[2][0];
+    char mode = w[3][0];
+    pl.seed = static_cast<unsigned>(std::stoul(w[4]));
+    pl.same = same;
+    pl.wave = wave;
+    pl.rich = profile == 4;
+    pl.direct = profile == 5;
+    unsigned mult = profile == 2 ? 2 : 1;
+
+    std::size_t total = 0;
+    for (unsigned t = 0; t < n; t++)
+        for (unsigned s = 0; s < pl.counts[t]; s++)
+        {
+            std::string p = payload(pl.seed, t, s, pl.dist);
+            total += header(t, s, p).size() + p.size() + 2;
+        }
+
+    // the stream(s) this sink writes to get the trapping buffer; formatting state a user may have left on the stream
+    // (base, showbase, fill — not a pending width) must not matter
+    std::vector<std::ostream*> streams;
+    if (to_out || profile == 3) streams.push_back(&std::cout);
+    if (!to_out || profile == 3) streams.push_back(&std::cerr);
+    std::vector<std::unique_ptr<trap_buf>> bufs;
+    std::vector<std::streambuf*> olds;
+    std::vector<std::ios::fmtflags> flags;
+    for (auto* os : streams)
+    {
+        bufs.emplace_back(new trap_buf(2 * mult * total + 4096, mode));
+        olds.push_back(os->rdbuf(bufs.back().get()));
+        flags.push_back(os->flags());
+        if (pl.seed % 2) { os->setf(std::ios::hex, std::ios::basefield); os->setf(std::ios::showbase | std::ios::uppercase); os->fill('*'); }
+    }
+    // p3 writes to both streams at once.  std::cerr is tied to std::cout: every insertion into cerr first flushes cout,
+    // and StdErrThreaded holds only the stderr mutex while it does — with an unsynchronised buffer under cout that flush
+    // races with a thread writing through stdout_mt.  This is outside the property's quantifier (ONE logger on the stdout
+    // OR the stderr sink) and is reported separately; the case unties cerr (what such a program has to do) unless the
+    // word `tied` asks for the standard state.
+    std::ostream* old_tie = std::cerr.tie();
+    if (profile == 3 && !tied) std::cerr.tie(nullptr);
+    int tsan_before = g_tsan_reports.load();
+    {
+        worker_fn fn = pick(to_out, profile);
+        std::vector<std::thread> th;
+        if (n < 2) wave = pl.wave = false;
+        unsigned first_wave = wave ? n / 2 : n; // ids n/2 .. 2*(n/2)-1 are spawned by 0 .. n/2-1; a last odd one by main
+        for (unsigned t = 0; t < first_wave; t++) th.emplace_back(fn, &pl, t, true);
+        while (pl.ready.load() < static_cast<int>(first_wave)) std::this_thread::yield();
+        pl.go.store(true);
+        if (wave)
+            for (unsigned t = 2 * (n / 2); t < n; t++) th.emplace_back(fn, &pl, t, false);
+        for (auto& x : th) x.join();
+    }
+    std::cerr.tie(old_tie);
+    for (std::size_t k = 0; k < streams.size(); k++)
+    {
+        streams[k]->rdbuf(olds[k]);
+        streams[k]->flags(flags[k]);
+        streams[k]->fill(' ');
+        streams[k]->clear();
+    }
+
+    for (auto& b : bufs)
+        if (b->corrupt()) return "CORRUPT";
+    if (g_tsan_reports.load() != tsan_before) return "RACE";
+
+    std::vector<std::pair<unsigned, unsigned>> order;
+    for (auto& b : bufs)
+    {
+        order.clear();
+        std::string v = judge(b->bytes(), pl, mult, order);
+        if (v != "OK") return v;
+    }
     std::string obs = "OK " + w[1];
     if (want_order)
     {
@@ -387,14 +559,62 @@ std::string run_case(const std::vector<std::string>& w0)
     }
     return obs;
 }
+
+std::string run_case(const std::vector<std::string>& w0)
+{
+    std::vector<std::string> w = w0;
+    bool want_order = false, same = false, wave = false, fresh = false, tied = false;
+    int profile = 0;
+    while (w.size() > 5)
+    {
+        const std::string& f = w.back();
+        if (f == "ord") want_order = true;
+        else if (f == "same") same = true;
+        else if (f == "wave") wave = true;
+        else if (f == "fresh") fresh = true;
+        else if (f == "tied") tied = true;
+        else if (f.size() == 2 && f[0] == 'p' && f[1] >= '1' && f[1] <= '5') profile = f[1] - '0';
+        else if (f != "tsan") return "BADCASE"; // `tsan` only routes the case to the ThreadSanitizer build (props/C09.py)
+        w.pop_back();
+    }
+    if (w.size() != 5 || (w[0] != "out" && w[0] != "err") || w[2].size() != 1 || w[3].size() != 1) return "BADCASE";
+    if (!fresh) return run_threads(w, want_order, same, wave, profile, tied);
+
+    // a process in which no logger and no sink has been used yet
+    int fd[2];
+    if (pipe(fd) != 0) return "BADCASE";
+    pid_t pid = fork();
+    if (pid == 0)
+    {
+        std::signal(SIGALRM, SIG_DFL);
+        alarm(4);
+        close(fd[0]);
+        std::string r = run_threads(w, want_order, same, wave, profile, tied);
+        ssize_t ignored = write(fd[1], r.data(), r.size());
+        (void)ignored;
+        std::_Exit(0);
+    }
+    close(fd[1]);
+    std::string r;
+    char buf[4096];
+    ssize_t k;
+    while ((k = read(fd[0], buf, sizeof buf)) > 0) r.append(buf, static_cast<std::size_t>(k));
+    close(fd[0]);
+    int st = 0;
+    waitpid(pid, &st, 0);
+    if (WIFSIGNALED(st)) return WTERMSIG(st) == SIGALRM ? "HANG" : "CRASH(child signal " + std::to_string(WTERMSIG(st)) + ")";
+    if (!WIFEXITED(st) || WEXITSTATUS(st) != 0 || r.empty()) return "CRASH(child exit " + std::to_string(WEXITSTATUS(st)) + ")";
+    return r;
+}
 } // namespace
 
 int main(int argc, char** argv)
 {
-    // instantiate the logger singletons up front (their lazy construction is not what is being tested)
-    out_a::instance();
-    out_b::instance();
-    err_a::instance();
-    err_b::instance();
+    // p4: run-time thresholds, set once before any thread exists. severity_filter<R>: records >= debug pass;
+    // severity_filter<R,1> sits under a not_filter: with threshold fatal+1 it rejects everything, so NOT accepts.
+    nl::filter::severity_filter<rich_t>::set_severity(nl::severity_level::debug);
+    nl::filter::severity_filter<rich_t, 1>::set_severity(static_cast<nl::severity_level>(6));
+    // nothing is logged and no logger instance is created here: the first statements of the first case race on
+    // logger::instance() and on the sinks' function-local static mutexes
     return vh::driver_main(argc, argv, run_case);
 }
